@@ -66,6 +66,11 @@ class World:
             elif op == "GetCurrentId":
                 sid = m.GetCurrent().GetId()
                 out["t"] = sid if sid is not None else NONE
+            elif op == "GetUnitSystemById":
+                out["t"] = m.GetUnitSystemById(a["id"]).GetId()
+            elif op == "GetQuantityDefaultUnit":
+                from barril.units import ObtainQuantity
+                out["t"] = m.GetQuantityDefaultUnit(ObtainQuantity(a["u"], a["c"]))
             elif op == "ConvertToCurrent":
                 v, u = m.ConvertToCurrent(a["c"], a["u"], a["x"][0] / a["x"][1])
                 out["t"], out["x"] = u, v
